@@ -2,6 +2,7 @@
 from __future__ import annotations
 
 import ast
+import re
 
 from sa.absint import AObj, EnumV, FlagV, Interp, Opaque, Sym, Tok, to_text
 from sa.cbmodel import Runner
@@ -205,14 +206,21 @@ def r12_5(ctx):
     idx = get_index(ctx.env)
     fi = idx.func("Register.il_init_var")
     fr = idx.func("Register.il_read")
-    for name, access in (("Rs", "R"), ("Rss", "PR"), ("Rd", "W"), ("Rdd", "PW"), ("Rx", "RW"), ("Rxx", "PRW"), ("Ry", "RW"), ("Ryy", "PRW"), ("Rz", "RW"), ("gp", "R")):
-        kw = {"is_alias": True} if name == "gp" else {}
+    for name, access in (("Rs", "R"), ("Rss", "PR"), ("Rd", "W"), ("Rdd", "PW"), ("Rx", "RW"), ("Rxx", "PRW"), ("Ry", "RW"), ("Ryy", "PRW"), ("Rz", "RW"), ("gp", "R"), ("pc", "R"), ("pc_new", "R"), ("gp_new", "R")):
+        kw = {"is_alias": True} if name in ("gp", "pc") else {}
+        if name.endswith("_new"):
+            kw = {"is_alias": True, "is_new": True}
+            name = name[:-4]
         outs = Interp(idx).explore(lambda i: i.call_function(fi, [], self_obj=reg_obj(name, access, idx, **kw)))
         init_txt = " ".join(outcome_text(o) for o in outs)
         has_pure = "RzILOpPure *" in init_txt
         outs = Interp(idx).explore(lambda i: i.call_function(fr, [], self_obj=reg_obj(name, access, idx, **kw)))
         read_txt = {outcome_text(o) for o in outs}
+        name = name + ("_new" if kw.get("is_new") else "")
         consumes = read_txt == {name}
+        if has_pure:
+            declared = sorted(set(re.findall(r"RzILOpPure \*(\w+) =", init_txt)))
+            ctx.check(f"register {name} ({access}): the variable the READ block declares is the one reads use", declared == [name], f"RzILOpPure *{name} = ...", str(declared), fn_where(idx, fi))
         ctx.check(f"register {name} ({access}): initialised pure <=> reads consume it", has_pure == consumes, "pure initialised iff il_read returns the variable", f"initialises pure={has_pure}, read -> {sorted(read_txt)}", fn_where(idx, fr))
     ctx.note("not decided statically: a readable register that is only passed by reference (or only used in sizeof) is initialised in the READ block "
              "but never consumed (leaked pure), e.g. { RdV = get_corresponding_CS(pkt, MuV); } - whether a read happens depends on the program")
